@@ -60,6 +60,14 @@ def tag_graph(g):
     return g
 
 
+def _render_graph_level(g):
+    """rendering of the graph-level attribute dictionary (Graph.graph), nested containers included"""
+    try:
+        return repr(sorted((str(k), repr(v)) for k, v in g.graph.items()))
+    except Exception:
+        return "?"
+
+
 class PartitionSpy:
     """collects the partition vector (by label of the graph passed in) after each call of
     partition_molecule_by_attribute while active"""
@@ -135,6 +143,7 @@ class Session:
         before = project(g)
         if "bad" in before:          # an earlier call damaged the object (already reported): nothing more can be said about it
             return None
+        gbefore = _render_graph_level(g)
         with PartitionSpy() as ps:
             try:
                 res = guarded(lambda: tc.canonicalize_molecule(g), 900)
@@ -148,6 +157,9 @@ class Session:
             self.ev.append({"op": "raised", "call": "canonicalize_molecule", "arg": k,
                             "clause": "C12:canonicalize-mutated-its-argument(atoms-renamed-or-removed)"})
             return None
+        if _render_graph_level(g) != gbefore:
+            self.ev.append({"op": "raised", "call": "canonicalize_molecule", "arg": k,
+                            "clause": "C12:canonicalize-mutated-its-argument(graph-level-attributes)"})
         if "bad" in pr:
             self.ev.append({"op": "raised", "call": "canonicalize_molecule", "arg": k,
                             "clause": "C12:result-not-numbered-0..n-1"})
